@@ -188,6 +188,7 @@ type simMsg struct {
 	Raw  []byte
 	Err  string
 	Type uint8
+	Sess int // transport session (connection) number of the neighbour this message arrived on
 }
 
 type simPeer struct {
@@ -232,7 +233,7 @@ func (p *simPeer) attach(c *fakeConn) {
 	p.opts = nil
 	p.sopts = nil
 	p.mu.Unlock()
-	go p.reader(c, p.gate, p.readerDone)
+	go p.reader(c, p.gate, p.readerDone, p.session)
 }
 
 func (p *simPeer) setOptions(recv, send *bgp.MarshallingOption) {
@@ -246,7 +247,7 @@ func (p *simPeer) setOptions(recv, send *bgp.MarshallingOption) {
 	p.mu.Unlock()
 }
 
-func (p *simPeer) reader(c *fakeConn, gate chan struct{}, done chan struct{}) {
+func (p *simPeer) reader(c *fakeConn, gate chan struct{}, done chan struct{}, sess int) {
 	defer close(done)
 	for {
 		p.mu.Lock()
@@ -280,7 +281,23 @@ func (p *simPeer) reader(c *fakeConn, gate chan struct{}, done chan struct{}) {
 		body := make([]byte, 0)
 		if l > bgp.BGP_HEADER_LENGTH {
 			body = make([]byte, l-bgp.BGP_HEADER_LENGTH)
-			if _, err := io.ReadFull(c, body); err != nil {
+			got := 0
+			failed := false
+			for got < len(body) {
+				n, err := c.Read(body[got:])
+				got += n
+				if err != nil {
+					var ne net.Error
+					if errors.As(err, &ne) && ne.Timeout() {
+						// stall() hit in the middle of a message: finish this message first
+						c.SetReadDeadline(time.Time{})
+						continue
+					}
+					failed = true
+					break
+				}
+			}
+			if failed {
 				p.mu.Lock()
 				if p.conn == c {
 					p.eof = true
@@ -294,7 +311,7 @@ func (p *simPeer) reader(c *fakeConn, gate chan struct{}, done chan struct{}) {
 		p.mu.Lock()
 		opts := p.opts
 		p.mu.Unlock()
-		m := simMsg{T: p.ss.now(), Raw: raw, Type: hdr[18]}
+		m := simMsg{T: p.ss.now(), Raw: raw, Type: hdr[18], Sess: sess}
 		msg, err := bgp.ParseBGPMessage(raw, opts...)
 		if err != nil {
 			m.Err = err.Error()
@@ -379,6 +396,12 @@ func (p *simPeer) take() []simMsg {
 	p.log = nil
 	p.mu.Unlock()
 	return l
+}
+
+func (p *simPeer) curSession() int {
+	p.mu.Lock()
+	defer p.mu.Unlock()
+	return p.session
 }
 
 func (p *simPeer) isEOF() bool {
